@@ -50,8 +50,41 @@ def dimLe0 (d : Dim) : Bool := d.rank ≤ 1
 
 def polyOf (ring : List Pt) : Parts := ⟨[], [], [⟨ring, []⟩]⟩
 
-/-- OGC-valid polygon (interior connectedness is not checked) -/
+/-! #### connected interior: the rings / touch-points incidence graph must be a forest -/
+
+/-- component label of ring `i` (labels are merged by relabelling) -/
+def mergeLabels (labels : List Nat) (a b : Nat) : List Nat := labels.map (fun l => if l == b then a else l)
+
+/-- Process one touch point incident to rings `rs`: returns `none` if two of them were already
+connected (a cycle ⇒ the rings enclose a part of the interior), else the merged labelling. -/
+def joinAt (labels : List Nat) : List Nat → Option (List Nat)
+  | [] => some labels
+  | [_] => some labels
+  | r1 :: r2 :: rest =>
+    match labels[r1]?, labels[r2]? with
+    | some l1, some l2 =>
+      if l1 == l2 then none else joinAt (mergeLabels labels l1 l2) (r2 :: rest)
+    | _, _ => some labels
+
+def joinAll (labels : List Nat) : List (List Nat) → Bool
+  | [] => true
+  | rs :: rest => match joinAt labels rs with
+    | none => false
+    | some l => joinAll l rest
+
+/-- The interior of a polygon whose rings are simple and touch only at points is connected iff
+the bipartite incidence graph (rings, touch points) has no cycle. -/
+def interiorConnected (p : Poly) : Bool :=
+  let rings := p.rings.map dedupConsecutive
+  let touch := dedupPts (rings.zipIdx.flatMap (fun (r, i) =>
+    r.filter (fun v => rings.zipIdx.any (fun (r', j) => i != j && onAnySeg v (segs r')))))
+  let incident := touch.map (fun v => (rings.zipIdx.filter (fun (r, _) => onAnySeg v (segs r))).map (·.2))
+  joinAll (List.range rings.length) incident
+
+/-- OGC-valid polygon -/
 def polyValid (p : Poly) : Bool :=
+  polyValidRings p && interiorConnected p
+where polyValidRings (p : Poly) : Bool :=
   ringSimple p.ext && p.ints.all ringSimple &&
   p.ints.all (fun h =>
     let m := relateParts (polyOf h) (polyOf p.ext)
